@@ -6,6 +6,10 @@ extern crate std;
 use std::{vec, vec::Vec};
 use super::*;
 use crate::models::*;
+#[allow(unused_imports)]
+use embedded_hal::{delay::DelayNs, digital::OutputPin};
+#[allow(unused_imports)]
+use crate::{dcs::InterfaceExt, interface::{Interface, InterfacePixelFormat}, models::{Model, ModelInitError}, options::{ColorInversion, ColorOrder, ModelOptions, Orientation, RefreshOrder}, Display};
 use crate::vk_support::*;
 use embedded_graphics_core::pixelcolor::{Rgb565, Rgb666};
 
@@ -48,10 +52,10 @@ where
             assert!(!di.sleeping, "C11: controller awake after init");
             assert!(di.on, "C11: display switched on");
             assert!(di.madctl == Some(want_madctl), "C11: address mode equals the encoding of the options");
-            assert!(di.colmod == Some(<M::ColorFormat as ExpectColmod>::COLMOD), "C11: pixel format matches the colour type");
+            assert!(di.colmod == Some(<M::ColorFormat as ExpectColmod>::COLMOD), "C05: C11: announced interface pixel format does not match the colour type");
             assert!(di.inverted == Some(want_inv), "C11: inversion as chosen");
             assert!(di.ramwr == 0 && di.px_calls == 0, "C11: no pixel memory written");
-            assert!(clock.ns.get() >= di.t_slp_ns.unwrap() + 120_000_000, "C11: 120 ms after sleep-out before init returns");
+            assert!(clock.ns.get() >= di.t_slp_ns.unwrap() + 120_000_000, "C11: C13: init returned earlier than 120 ms after sleep-out");
             assert!(di.min_slp_gap_ns >= 120_000_000, "C13: sleep-in/out commands at least 120 ms apart");
         }
         Err(InitError::InvalidConfiguration(ConfigurationError::UnsupportedInterface)) => {
